@@ -283,3 +283,40 @@ Proof. vm_compute. reflexivity. Qed.
 Example ex_key_plus_entry_bytes :
   get_by_path T_MAP (encode (VMap T_DOUBLE T_STRING [(ex_dkey, VString [97; 98])])) 0 [PBinKey (encode ex_dkey ++ [0; 0])] = GNotFound.
 Proof. vm_compute. reflexivity. Qed.
+
+(* ================================================================== (G) the skipping primitives from the Go source *)
+(* thrift/binary_skip.go skipn / skipstr / next_nopanic - the primitives every SkipGo step is made of - are translated from the Go text
+   on every build (gen/Gen_thrift.v).  tskip_gen runs the generated definition on (buffer, cursor), tskip_model runs ThriftWire's
+   drop / skipstr on the bytes from the cursor on (Check20h.v); both answer (succeeded, cursor afterwards). *)
+From DG Require GoSem Gen_thrift Check20h GenProtoskipProofs GenThriftskipProofs.
+
+Theorem C01_skipn_from_source :
+  forall buf rd n, GenProtoskipProofs.in_buf buf rd -> 0 <= n < 2 ^ 62 ->
+  fst (Check20h.tskip_gen 0 buf rd n) = Check20h.tskip_model 0 buf rd n.
+Proof. exact GenThriftskipProofs.skipn_is_drop. Qed.
+Print Assumptions C01_skipn_from_source.
+
+Theorem C01_skipstr_from_source :
+  forall buf rd, bytes_ok buf -> GenProtoskipProofs.in_buf buf rd -> GoSem.blen buf < 2 ^ 31 ->
+  fst (Check20h.tskip_gen 1 buf rd 0) = Check20h.tskip_model 1 buf rd 0.
+Proof. exact GenThriftskipProofs.skipstr_is_skipstr. Qed.
+Print Assumptions C01_skipstr_from_source.
+
+Theorem C01_next_nopanic_from_source :
+  forall buf rd n, GenProtoskipProofs.in_buf buf rd -> 0 <= n < 2 ^ 62 ->
+  Gen_thrift.BinaryProtocol_next_nopanic buf rd n =
+    if rd + n >? GoSem.blen buf then ([], GoSem.Err_io_EOF, buf, rd) else (GoSem.slice_range buf rd (rd + n), 0, buf, rd + n).
+Proof. exact GenThriftskipProofs.next_nopanic_is_take. Qed.
+Print Assumptions C01_next_nopanic_from_source.
+
+(* the amount ThriftWire.skip drops for a container of fixed-size elements (sz * es, sz * (ks + vs)) is the amount SkipGo's fast paths
+   hand to skipn in the source (gen/Gen_thriftskipfast.v) *)
+From DG Require Gen_thriftskipfast.
+Theorem C01_SkipGo_fast_paths_from_source :
+  (forall vt sz, 0 <= vt < 256 -> 0 <= sz < 2 ^ 31 ->
+     Gen_thriftskipfast.SkipGo_list_fast vt sz = (Gen_thriftskipfast.Out_return, [(Gen_thriftskipfast.Eff_skipn, [sz * fixed_size vt])])) /\
+  (forall kt vt sz, 0 <= kt < 256 -> 0 <= vt < 256 -> 0 <= sz < 2 ^ 31 ->
+     Gen_thriftskipfast.SkipGo_map_fast sz (Gen_thriftskipfast.typeSize kt) (Gen_thriftskipfast.typeSize vt)
+       = (Gen_thriftskipfast.Out_return, [(Gen_thriftskipfast.Eff_skipn, [sz * (fixed_size kt + fixed_size vt)])])).
+Proof. exact GenThriftskipProofs.SkipGo_fast_paths_exact. Qed.
+Print Assumptions C01_SkipGo_fast_paths_from_source.
